@@ -132,7 +132,7 @@ for _kind, _cls, _tus, _w in (
     K('C13.e.sim.%s' % ('multi' if _kind == 0 else 'mono'), property='C13', engine='symex', harness='C13/gibbs_sim.cpp',
       entries=['k_sim_sel_gs1', 'k_sim_nosel_gs0'], tus=_tus + ['src/Gibbs/AGibbs.cpp', 'src/Basic/Utilities.cpp'],
       defines={'all': {'VF_KIND': _kind}}, symex={'sqrt_memo_sym': True},   # sqrt(1 - rho*rho) of the code and of the reference: one algebraic unknown
-      bounds={'quick': '%s::getSimulate, one call: 2 GS x 2 variables, 2 active samples (with arbitrary ranks into a Db of 3 samples / without selection), arbitrary (variable, active sample); arbitrary bounds tables (each bound present or absent, lower <= upper, |.| <= 1e6), mean |.| <= 1e6, st.dev. in [1e-3, 1e3], |rho| < 0.999, iteration / burn-in arbitrary with the decay finished or off' % _cls},
+      bounds={'quick': '%s::getSimulate, one call: 2 GS x 2 variables, 2 active samples (with arbitrary ranks into a Db of 3 samples / without selection), arbitrary (variable, active sample); arbitrary bounds tables (each bound present or absent, lower <= upper, |.| <= 1e6), mean |.| <= 1e6, st.dev. in [1e-3, 1e3], |rho| <= 0.97, iteration / burn-in arbitrary with the decay finished or off' % _cls},
       timeout_ms={'quick': 100000, 'thorough': 600000}, validate={'quick': 40, 'thorough': 80},
       what=_w + ', AGibbs::getSampleRank, getRank, _getBoundsDecay, FFFF: bounds handed to law_gaussian_between_bounds == (stored bounds of the own (absolute sample, item) - mean)/st.dev., absent stays absent, unbounded draw iff no bound; value = yk + sk*draw; draw within the bounds received => gaussian value within the stored bounds',
       out='the bounded draw itself (C13.c); bounds relaxed on purpose during the burn-in decay; magnitudes for which a centred / scaled bound exceeds 1e30 (read as absent by FFFF); rounding (real-arithmetic reading)',
